@@ -65,10 +65,12 @@ def run_case(c, case):
     lin_det = [d.name for d in oc.detectors if isinstance(d, (fdtdx.FieldDetector, fdtdx.PhasorDetector))]
     quad_det = [d.name for d in oc.detectors if isinstance(d, (fdtdx.EnergyDetector, fdtdx.PoyntingFluxDetector))]
 
-    def run(E, H, amps):
+    def run(E, H, amps, only=None):
         ol = []
         for o in oc.object_list:
             if o.name in names:
+                if only is not None and o.name != only:
+                    continue  # a different source SET: every other source removed from the scene, not merely scaled by 0
                 o = o.aset("static_amplitude_factor", amps[names.index(o.name)])
             ol.append(o)
         oc2 = oc.aset("object_list", ol)
@@ -108,6 +110,7 @@ def run_case(c, case):
                 return res > 1e-7, dict(output=label, rel_residual=res, amps=a)
             return replay
 
+        lin_parts = {}
         for label, F in outs:
             F = jx.lift(F)
             if label in ("E", "H"):
@@ -124,6 +127,28 @@ def run_case(c, case):
             for kk in range(K):
                 rhs = jx.ew(sc.add, rhs, jx.ew(lambda g, a=avars[kk]: sc.mul(a, g), parts[kk]))
             c.prove_eq(f"{label} == sum a_k F(e_k,0) + F(0,x)", F, rhs, [], replay_for(label, getter), key=f"linearity:{label.split('.')[0]}")
+            if label in ("E", "H"):
+                lin_parts[label] = (parts, px)
+        # superposition across source SETS: the scene with only source k present must give a_k F(e_k,0) + F(0,x), with
+        # F(e_k,0) taken from the full scene (a source must not gate or overwrite what another source injects)
+        for kk, nm in enumerate(names):
+            t0 = time.time()
+            (Ek, Hk, _dk), _trk = jx.call(lambda E_, H_, a_, nm=nm: run(E_, H_, a_, only=nm), E, H, amps)
+            c.interp_s += time.time() - t0
+            rk = jax.jit(lambda E_, H_, a_, nm=nm: run(E_, H_, a_, only=nm))
+
+            def replay_set(m, kk=kk, rk=rk, nm=nm):
+                e, h, a = model_array(m, E), model_array(m, H), model_array(m, amps)
+                ak = np.zeros(K)
+                ak[kk] = a[kk]
+                alone = rk(jnp.asarray(e), jnp.asarray(h), jnp.asarray(a))
+                inscene = runj(jnp.asarray(e), jnp.asarray(h), jnp.asarray(ak))
+                res = max(float(np.max(np.abs(np.asarray(alone[i]) - np.asarray(inscene[i])))) / (1.0 + float(np.max(np.abs(np.asarray(inscene[i]))))) for i in (0, 1))
+                return res > 1e-7, dict(source=nm, rel_residual=res, note="scene with only this source vs. full scene with every other amplitude factor 0")
+            for label, Fk in (("E", Ek), ("H", Hk)):
+                parts, px = lin_parts[label]
+                rhs = jx.ew(sc.add, px, jx.ew(lambda g, a=avars[kk]: sc.mul(a, g), parts[kk]))
+                c.prove_eq(f"{label} of the scene with only {nm} == a_k F(e_k,0) + F(0,x)", jx.lift(Fk), rhs, [], replay_set, key=f"superposition-sets:{label}")
         # twins: every source contributes to some output; the initial state contributes
         used = set(jx.variables_of([Ef, Hf] + [ds[n][k] for n in lin_det for k in ds[n]]))
         missing = [str(a) for a in avars if str(a) not in used]
